@@ -138,7 +138,7 @@ def g_modifiers(prop, bound, q):
     T.append(dict(mode='desc_get', shape=(0, 1, 0, 0, 0)))
     return dict(name='modifiers', bound=bound_text(bound) + '; <=2 names selected as positional-only and <=2 as keyword-only (3 in total at most; the NAMES are symbolic: any parameter, each other, or none); '
                 'calls: 0..positionals+1 positional arguments, <=%d keywords with symbolic names' % (1 if q else 2),
-                exhaustive=True, tasks=[dict(module='contracts.modifiers', want=[prop], args=a, cross=False) for a in T])
+                exhaustive=True, tasks=[dict(module='contracts.modifiers', want=[prop], args=a, cross=(a['mode'] in ('prepare', 'call'))) for a in T])
 
 
 def g_discovery(prop, q):
@@ -154,7 +154,7 @@ def g_discovery(prop, q):
     return dict(name='discovery', bound='resolve_name: none (tier P). Visitor: program templates = one forwarding call in each of %d contexts x one interfering statement of %d kinds '
                 'before / after it, with or without explicit arguments; EVERY identifier in the template is a solver variable (may or may not coincide with *args, **kwargs, '
                 'the first parameter, each other). Binder table: %d constructs of the ASDL grammar' % (len(CONTEXTS), len(KILLERS), len(BINDERS)),
-                exhaustive=True, tasks=[dict(module='contracts.discovery', want=[prop], args=a, cross=False) for a in T])
+                exhaustive=True, tasks=[dict(module='contracts.discovery', want=[prop], args=a, cross=(a['mode'] == 'visitor')) for a in T])
 
 
 def g_wrappers(prop, q):
@@ -176,6 +176,12 @@ def g_wrappers(prop, q):
                 exhaustive=True, tasks=[dict(module='contracts.wrappers', want=[prop], args=a, cross=False) for a in T])
 
 
+def g_folds(prop):
+    return dict(name='merge fold (all n)', bound='none: tier P - the input tuple is an abstract sequence of symbolic length n >= 1; the loop of merge is checked against an '
+                'inductive invariant (init / preservation at an arbitrary iteration / use), callees replaced by their contracts (which tier-B obligations discharge)',
+                exhaustive=True, tasks=[dict(module='contracts.folds', want=[prop], args={}, cross=False)])
+
+
 def plan(prop, tier, seed=0):
     """returns list of job groups: dict(name, tasks, bound, exhaustive)"""
     q = tier == 'quick'
@@ -185,7 +191,7 @@ def plan(prop, tier, seed=0):
     B1 = (1, 2, 1, 3) if q else (2, 3, 2, 5)        # single-signature units
     BS = (1, 1, 1, 2) if q else (1, 2, 1, 3)        # expensive pair units (forwards)
     if prop == 'C01':
-        G += [g_merge(prop, B2, 2), g_merge(prop, B3, 3, 400 if q else 12000, seed)]
+        G += [g_merge(prop, B2, 2), g_merge(prop, B3, 3, 400 if q else 12000, seed), g_folds(prop)]
     elif prop == 'C09':
         G += [g_merge(prop, B2, 2), g_merge(prop, B3, 3, 200 if q else 6000, seed), g_mask(prop, B1, 0, 'zero'),
               g_embed(prop, B3 if q else B2, 'embed'), g_merge_laws(prop, B1, B3, 300 if q else 6000, seed)]
@@ -207,6 +213,8 @@ def plan(prop, tier, seed=0):
               g_forwards(prop, BS, 1, 60 if q else 1200, seed)]
         if prop in ('C08', 'C10', 'C11'):
             G += [g_partial(prop, B1, 1), g_partial(prop, B1 if q else (1, 2, 1, 3), 0, 'plain')]
+    if prop == 'C15':
+        G += [g_folds(prop)]
     if prop == 'C12':
         G += [g_modifiers(prop, (1, 2, 1, 3) if q else (1, 3, 1, 4), q)]
     if prop == 'C11':
